@@ -31,6 +31,12 @@ CLAIMS['C02'] = dict(ref='DESIGN.md §2, §3 C02',
 CLAIMS['C15'] = dict(ref='DESIGN.md §3 C15',
                      text="Bounded symbolic model checking of special-operand behaviour: Add/Sub/Mul/Quo/QuoRem on all operand class pairs with a NaN/Inf/zero operand, ten elementary functions on NaN/Inf/zero/invalid arguments, NaN propagation, payload and Payload.String of created NaNs, and the classification predicates on all 2^128 patterns; every bit inside a class is symbolic; expected result classes are produced at check time by the float64 operations of the installed toolchain.",
                      note=TRUST + "Reference = float64 semantics of the installed Go toolchain. One open known finding (Expm1(-0), pinned by the repository's own vectors) is listed in known_findings.json. The math.Pow table is not part of this check.")
+CLAIMS['C10'] = dict(ref='DESIGN.md §3 C10',
+                     text="Bounded symbolic model checking of Int64/Int32/Uint64/Uint32 (per concrete exponent, coefficient and sign symbolic, plus the two far regions), FromInt64/32/Uint64/32, Decimal.Int (nil and reused *big.Int), Decimal.Rat and FromInt (integers up to 200 bits quick / 300 bits thorough, rounding kernel cut): oracle = exact truncation/saturation/value specification over mathematical integers.",
+                     note=TRUST + "math/big is replaced by an exact-integer model with the documented semantics (listed in the evidence); FromRat and FromInt beyond 300 bits are outside the bound.")
+CLAIMS['C14'] = dict(ref='DESIGN.md §3 C14',
+                     text="Bounded symbolic model checking of Decompose (every bit pattern, five caller-buffer shapes, real Compose applied to its output) and Compose (every coefficient byte string up to 6 bytes quick / 10 bytes thorough with all bytes symbolic, both signs, every int32 exponent, all forms): succeeds exactly when sign*coefficient*10^exp is representable (finite disjunction over the exponent shift), never rounds, leaves the receiver alone on error.",
+                     note=TRUST + "Coefficients longer than the stated byte bound (uint256 and big.Int paths) are outside the claim.")
 NA = {
     'C16': "accuracy of the exp/log series is numerical analysis over iterated 192-bit mul/div with data-dependent loops; no bounded solver query decides a one-ulp error bound (DESIGN.md §5)",
     'C17': "convergence of the fixed-count Heron/Halley iterations with symbolic 192-bit division is not expressible as a decidable bounded query (DESIGN.md §5)",
